@@ -213,7 +213,11 @@ def finish(rep, level, explanation, checker_cmd):
     os.makedirs(EVID, exist_ok=True)
     known, fixed = load_known(rep.pid)
     unlisted, listed = [], []
+    seen_keys = set()
     for v in rep.violations:
+        if (v["rule"], v["key"]) in seen_keys:
+            continue
+        seen_keys.add((v["rule"], v["key"]))
         hit = None
         for k in known:
             if k["rule"] == v["rule"] and k["key"] == v["key"]:
